@@ -422,13 +422,20 @@ check("C07", "exploration",
       "a 14-value boundary alphabet of Fp32BitPrime (semi-honest and MAC-validated); Boolean multiply, OR, bit-wise AND/OR of all "
       "3-bit operand pairs; the multiplexer on all 2x8x8 inputs of BA3 and boundary values of BA5/8/20/64; bucket aggregation of every "
       "column of <= 3 (4) small values into 3- and 8-bit saturating buckets; share conversion of 257 boundary match keys; the "
-      "pseudonym function on boundary keys incl. equal inputs - each in both execution modes. distinct_nontrivial = operand "
-      "pairs / cases executed.",
+      "pseudonym function on boundary keys incl. equal inputs - each in both execution modes. Aggregation beyond one call "
+      "(part chunks): every pair of chunk lengths 1..6 (8) and some triples aggregated by consecutive aggregate_values calls that "
+      "share the per-depth record counters; breakdown_reveal_aggregation end to end with row counts around every multiple (1..4, "
+      "thorough 1..8) of the proof chunk size in one bucket for 8-bit and 3-bit values; the cross-shard histogram merge "
+      "(FinalizerContext::finalize) on every combination of 7 boundary per-shard totals for 2 and 3 shards "
+      " - saturating sums expected, a stall (no result within a generous re-checked deadline) is a violation. "
+      "distinct_nontrivial = operand pairs / cases executed.",
       [{"name": "circuits", "config": "A", "test": "verif::c07::run", "workers": {"quick": 4, "thorough": 8},
         "timeout": {"quick": 1200, "thorough": 7200},
         "require": {"any": {"circuit_runs": 60, "unequal_width_runs": 20, "distinct:circuits": 12}}},
        {"name": "blocks", "config": "A", "test": "verif::c07b::run", "timeout": {"quick": 900, "thorough": 3600},
-        "require": {"any": {"distinct:blocks": 24, "cases_multiply-fp31-mac": 961}}}],
+        "require": {"any": {"distinct:blocks": 24, "cases_multiply-fp31-mac": 961}}},
+       {"name": "chunks", "config": "A", "test": "verif::c07c::run", "timeout": {"quick": 1200, "thorough": 5400},
+        "require": {"any": {"consecutive_chunk_runs": 80, "breakdown_aggregation_runs": 20, "shard_merge_cases": 400}}}],
       assumptions=["the pseudonym function is compared with 1/(k+x)*G computed with the library's own Fp25519 / RP25519 arithmetic (C08 covers that arithmetic)",
                    "vector widths: 1 for the arithmetic circuits, 16 for aggregation, 256/16 for share conversion, the BA width for the multiplexer",
                    "operands wider than 4 (5) bits only on the boundary alphabet"],
@@ -500,11 +507,18 @@ check("C20", "exploration",
       "without TLS it is honoured. Client certificates (TLS): the test certificate of helper A, B, C x identity header {absent, A, C} x "
       "{step, prepare, echo}: peer routes are served, the step records are filed under the identity of the certificate (received "
       "back from exactly that helper through the transport) whatever the header says, the answers do not depend on the header; a "
-      "certificate the server does not know (3 of them) is refused. distinct_nontrivial = mounted (method, path) pairs + live requests.",
+      "certificate the server does not know (3 of them) is refused. Configuration matrix, both server flavours: {HTTPS disabled, "
+      "not} x {TLS material present, absent} x {which peers have a certificate configured: 4 (thorough: all 8) subsets} started as "
+      "further listeners of the real server object (a configuration that refuses to start is a refusal) x callers {plain HTTP, TLS "
+      "without certificate, TLS with each of the 6 test certificates} x identity header {absent, two values} x {step, prepare, "
+      "echo, (shard) complete}: a peer route may be served only when HTTPS is explicitly disabled and the header is present, or "
+      "under TLS when the caller's certificate is the one configured for some peer; NetworkConfig::identify_cert on every "
+      "(configuration, certificate or none) pair. distinct_nontrivial = mounted (method, path) pairs + live requests.",
       [{"name": "auth", "config": "A", "test": "net::server::verif::c20::run", "timeout": {"quick": 900, "thorough": 3600},
-        "require": {"any": {"mounted_routes_mpc": 9, "mounted_routes_shard": 5, "live_requests": 40, "identity_observations": 9}}}],
+        "require": {"any": {"mounted_routes_mpc": 9, "mounted_routes_shard": 5, "live_requests": 40, "identity_observations": 9,
+                            "server_configurations": 32, "config_matrix_requests": 1000}}}],
       assumptions=["routes reachable only through segments absent from the http_serde path constants are not probed",
-                   "client certificates on the MPC (helper-to-helper) server only; the shard-to-shard server's certificate matrix is not driven live"],
+                   "the identity under which a shard server files records is not observed through its transport (the helper server's is)"],
       exhaustive=True, engine="E5 domain",
       technique="exhaustive enumeration of the bounded path space x methods against the real axum routers; exhaustive configuration "
                 "matrix of live loopback servers",
